@@ -338,10 +338,20 @@ fn gen_unit_raw(prop: &str, tier: Tier, rng: &mut Rng) -> Vec<Case> {
             out
         }
         "C09" => {
-            let mut sw = Swarm::draw(rng, &CORE_KINDS, th);
+            let mut sw = Swarm::draw(rng, &general_pool(), th);
             sw.kinds.retain(|k| *k != Kind::PredClause && *k != Kind::ViewClause);
             if sw.kinds.is_empty() {
                 sw.kinds.push(Kind::LinLe);
+            }
+            if rng.chance(0.2) && general_pool().contains(&Kind::Cumulative) {
+                // half-reified cumulative under all of its options (the incremental time-tables
+                // are notified and backtracked while the literal is not true, and only propagate
+                // once it is)
+                sw.kinds = vec![Kind::Cumulative];
+                if rng.chance(0.5) {
+                    sw.kinds.push(*rng.pick(&[Kind::LinLe, Kind::BinNe, Kind::BinLe]));
+                }
+                sw.max_vars = 5;
             }
             sw.reif_rate = 1.0;
             sw.max_cons = 3;
@@ -707,7 +717,7 @@ pub fn run_unit(prop: &str, tier: Tier, seed: u64, want_sample: bool) -> UnitRes
         }
         // a slice of C07 and C18 (and smaller ones of C01, C02): models far beyond the enumerator (implication chains hundreds of
         // propagations deep) with an analytic reference, under several configurations
-        "C07" | "C02" | "C18" | "C01" if rng.chance(match prop { "C07" => 0.3, "C18" => 0.3, "C01" => 0.25, _ => 0.08 }) || std::env::var("VERIF_DEEP_ONLY").is_ok() => {
+        "C07" | "C02" | "C18" | "C01" | "C03" if rng.chance(match prop { "C07" => 0.3, "C18" => 0.3, "C01" => 0.25, _ => 0.08 }) || std::env::var("VERIF_DEEP_ONLY").is_ok() => {
             let c = crate::deep::DeepCase::generate(prop, &mut rng, thorough(tier));
             absorb_any(&mut res, crate::anycase::AnyCase::Deep(c), want_sample);
         }
